@@ -851,8 +851,8 @@ func typeSwitchTable(f *file, name, after string) (table, error) {
 	if !found {
 		return t, fmt.Errorf("%s: no type switch in %s", f.path, name)
 	}
-	if t.dflt.res == "" {
-		t.dflt = branch{res: ".self", after: after}
+	if t.dflt.res == "" { // no default clause: control falls out of the switch
+		t.dflt = branch{res: ".fall", after: after}
 	}
 	t.frame = strings.Join(frame, "; ")
 	return t, nil
